@@ -145,6 +145,12 @@ class C05(Prop):
                         if ends:
                             nets.append(sorted(ends))
                 have_n.append(sorted(nets))
+        if len(want) == len(want_n) == len(have_n):
+            # cells in which a scalar net shares its identifier with a bus base are outside the naming
+            # convention (see cables_per_cell): not compared
+            for i, w in enumerate(want):
+                if w is None:
+                    want_n[i] = have_n[i] = None
         if want_n != have_n:
             k = next((i for i, (a, b) in enumerate(zip(want_n, have_n)) if a != b), None)
             det = ""
